@@ -78,6 +78,14 @@ def make_psets(rng, gen, dim, n):
     if dim == 1 and ks == [n] and rng.rand() < 0.7:    # the SAME values requested with the other mesh type
         sets.append(dict(id=nid, mesh="structured", pos=(pu[0].copy(),), npts=n, rel=0.0, mag=mag))
         nid += 1
+    # the SAME coordinate arrays (one tuple of equally long 1-D arrays, the same objects) requested with both mesh types: as axes of a
+    # grid and as the rows of a point list
+    if rng.rand() < 0.5:
+        k = int(rng.randint(2, 4))
+        same = tuple(np.sort(centre[d] + rng.uniform(0, spread, size=k)) for d in range(dim))
+        sets.append(dict(id=nid, mesh="structured", pos=same, npts=k ** dim, rel=0.0, mag=mag, shared=True))
+        sets.append(dict(id=nid + 1, mesh="unstructured", pos=same, npts=k, rel=0.0, mag=mag, shared=True))
+        nid += 2
     # equal-valued copies (same identifier, different objects / container types)
     for e in list(sets[:3]):
         if rng.rand() < 0.5:
@@ -148,13 +156,34 @@ def make_srf(gen, mid, nug, seed, mode_no, dim, fam="gau"):
     return gs.SRF(model, generator="Fourier", seed=seed, mode_no=[mode_no] * dim, period=[16.0] * dim)
 
 
+def draw_pset(rng, npos, p_other, p_reuse=0.3):
+    """index of the position set of a field-level call; None = NO position argument (the stored positions are evaluated again)"""
+    if rng.rand() < p_reuse:
+        return None
+    return int(rng.randint(0, npos)) if rng.rand() < p_other else 0
+
+
 def gen_history(rng, gen, length, npos=1):
+    ops = _gen_history(rng, gen, length, npos)
+    has_pos = False
+    for o in ops:                       # the malformed case (no positions stored yet) is kept, but rare
+        if o["k"] == "set_pos" or (o["k"] == "srf_call" and o["pset"] is not None):
+            has_pos = True
+        elif o["k"] == "srf_call" and not has_pos and rng.rand() < 0.85:
+            o["pset"] = int(rng.randint(0, npos))
+            has_pos = True
+    return ops
+
+
+def _gen_history(rng, gen, length, npos=1):
     ops = []
     for _ in range(length):
         r = rng.rand()
-        if r < 0.45:
+        if r < 0.06:
+            ops.append({"k": "set_pos", "pset": int(rng.randint(0, npos))})
+        elif r < 0.45:
             s = rng.choice(["keep", "keep", "none", "int", "int", "int"])
-            o = {"k": "srf_call", "n": 0, "pset": int(rng.randint(0, npos)) if rng.rand() < 0.75 else 0}
+            o = {"k": "srf_call", "n": 0, "pset": draw_pset(rng, npos, 0.75)}
             if s == "keep":
                 o["seed"] = "keep"
             elif s == "int":
@@ -169,7 +198,7 @@ def gen_history(rng, gen, length, npos=1):
             else:
                 ops.append({"k": "model", "id": int(rng.randint(0, len(MODELS))), "nug": int(rng.choice([0, 0, 1, 1, 2]))})
             if rng.rand() < 0.6:  # … and the next field-level call sees it (mostly without a new seed value)
-                o = {"k": "srf_call", "n": 0, "pset": int(rng.randint(0, npos)) if rng.rand() < 0.5 else 0}
+                o = {"k": "srf_call", "n": 0, "pset": draw_pset(rng, npos, 0.5, 0.45)}
                 s = rng.choice(["keep", "keep", "keep", "int", "none"])
                 if s == "keep":
                     o["seed"] = "keep"
@@ -193,22 +222,32 @@ def gen_history(rng, gen, length, npos=1):
             ops.append(o)
         else:
             ops.append({"k": "gen_call", "n": 0, "nugget": bool(rng.rand() < 0.6)})
+        if ops[-1]["k"] in ("gen_seed", "gen_mode_no", "gen_reset") and rng.rand() < 0.4:
+            # a generator setting was changed: the next field-level call often has no position argument
+            ops.append({"k": "srf_call", "n": 0, "pset": draw_pset(rng, npos, 0.5, 0.7), "seed": "keep"})
     return ops
 
 
 def resolve_history(ops, m0, nug0, psets, vd, n0):
     """fill in what depends on the running state: 'same' model id / nugget level, number of variates of each call"""
     mid, nug = m0, nug0
+    at = None                        # index of the position set stored on the field object (the harness's own tracking)
     for o in ops:
-        if o["k"] == "model":
+        if o["k"] == "set_pos":
+            at = o["pset"]
+            o["pos"] = psets[at]["id"]
+        elif o["k"] == "model":
             if o["id"] == "same":
                 o["id"] = mid
             if o["nug"] == "same":
                 o["nug"] = nug
             mid, nug = o["id"], o["nug"]
         elif o["k"] == "srf_call":
-            o["n"] = psets[o["pset"]]["npts"] * vd
-            o["pos"] = psets[o["pset"]]["id"]
+            if o["pset"] is not None:
+                at = o["pset"]
+            o["at"] = at                                         # the set this call evaluates (None: nothing stored, the call raises)
+            o["n"] = psets[at]["npts"] * vd if at is not None else 0
+            o["pos"] = psets[at]["id"] if o["pset"] is not None else None      # what the model is told: the given set or "no argument"
         elif o["k"] == "gen_call":
             o["n"] = n0 * vd
     return ops
@@ -221,7 +260,35 @@ def run_real(rng, gen, dim, ops, m0, nug0, seed0, mode_no, psets, fam="gau"):
     iso = srf.model.isometrize(psets[0]["pos"])
     for o in ops:
         k = o["k"]
-        if k == "srf_call":
+        if k == "set_pos":
+            e = psets[o["pset"]]
+            srf.set_pos(e["pos"], e["mesh"])
+        elif k == "srf_call" and o["pset"] is None:
+            # no position argument: the stored positions are evaluated again (through __call__ or the mesh-type specific entry)
+            kw = {}
+            if o.get("seed") != "keep":
+                kw["seed"] = seed_object(rng, o.get("seed"))
+            e = psets[o["at"]] if o["at"] is not None else None
+            q = rng.rand()
+            try:
+                if e is None or q < 0.5:
+                    f = srf(**kw)
+                elif q < 0.7:
+                    f = srf(None, mesh_type=e["mesh"], **kw)
+                else:
+                    f = (srf.structured if e["mesh"] == "structured" else srf.unstructured)(**kw)
+            except ValueError:
+                f = None
+            outs.append(None if f is None else np.array(f, copy=True))
+            fr = None
+            if f is not None:
+                sd = srf.generator.seed
+                mn = srf.generator.mode_no if gen != "Fourier" else int(srf.generator.mode_no[0])
+                if sd is not None and not cur["nug"]:
+                    fr = make_srf(gen, cur["mid"], 0, int(sd), mn, dim, fam)(e["pos"], mesh_type=e["mesh"])
+            fresh.append(fr)
+            stored.append(None if e is None else (stored_pos_ok(srf, e, dim), srf.mesh_type))
+        elif k == "srf_call":
             e = psets[o["pset"]]
             kw = dict(mesh_type=e["mesh"])
             if e["mesh"] == "unstructured" and rng.rand() < 0.5:
@@ -245,8 +312,18 @@ def run_real(rng, gen, dim, ops, m0, nug0, seed0, mode_no, psets, fam="gau"):
                 st["rescale"] = FAMILIES[fam][1][o["id"]].get("rescale", 1.0)
             if fam == "tpl":
                 st["len_low"] = FAMILIES[fam][1][o["id"]].get("len_low", 0.0)
+            via_list = fam == "aniso" and rng.rand() < 0.4
             for name in sorted(st, key=lambda a: (a == "var", a)):    # var last (TPL models: var follows the intensity)
                 setattr(srf.model, name, st[name])
+            if via_list:
+                # the same state reached by giving the length scales per axis (`len_scale = [l_0, l_1, ...]` sets the anisotropy)
+                tgt = np.array(srf.model.anis, copy=True)
+                ls = float(srf.model.len_scale)
+                srf.model.anis = 1.0
+                srf.model.len_scale = [ls] + [ls * float(a) for a in tgt]
+                if not (np.array_equal(srf.model.anis, tgt) and float(srf.model.len_scale) == ls):   # inexact quotient: not this route
+                    srf.model.anis = tgt
+                    srf.model.len_scale = ls
             srf.model.nugget = NUGGETS[nug_level(o["nug"])]
         elif k == "gen_seed":
             srf.generator.seed = seed_object(rng, o.get("s"))
@@ -271,7 +348,7 @@ def expected_output(cache, gen, dim, fam, rec, o, psets, iso):
     shapes at other positions), evaluated like the call `o`.  None for random (`None`) seeds."""
     if rec["seed"] is None:
         return None
-    key = (rec["model"], rec["nug"], rec["seed"], rec["mode_no"], rec["burn"] if rec["nug"] else 0, o["k"], o.get("pset"), o.get("nugget"))
+    key = (rec["model"], rec["nug"], rec["seed"], rec["mode_no"], rec["burn"] if rec["nug"] else 0, o["k"], o.get("at"), o.get("nugget"))
     if key not in cache:
         f = make_srf(gen, rec["model"], rec["nug"], int(rec["seed"]), rec["mode_no"], dim, fam)
         if rec["nug"]:
@@ -281,7 +358,7 @@ def expected_output(cache, gen, dim, fam, rec, o, psets, iso):
                 else:
                     f(np.full((dim, 1 + j % 3), 0.5))
         if o["k"] == "srf_call":
-            e = psets[o["pset"]]
+            e = psets[o["at"]]
             cache[key] = np.array(f(e["pos"], mesh_type=e["mesh"]), copy=True)
         else:
             cache[key] = np.array(f.generator(iso, add_nugget=o["nugget"]), copy=True)
@@ -313,9 +390,11 @@ def compare_history(ctx, case, r, dist, dis, distinct):
     # whose states differ in var / len_scale / shape arguments this is the state identifier itself, for the family that
     # differs ONLY in anisotropy / rotation the randomization generators are the same for all states.
     def pclass(o):
-        return o["pos"] if o["k"] == "srf_call" else 0
+        return (psets[o["at"]]["id"] if o["at"] is not None else None) if o["k"] == "srf_call" else 0
 
     def token(o, x):
+        if "error" in x:
+            return ("error", x["error"])
         f = list(x["out"]["field"])
         geom = geometry_class(fam, f[0] if o["k"] == "srf_call" else m0)
         f[0] = generator_class(gen, fam, f[0])
@@ -323,23 +402,36 @@ def compare_history(ctx, case, r, dist, dis, distinct):
     toks = [(token(o, x), pclass(o)) for o, x in zip(callops, r)]
     # non-finite outputs (a numerically negative spectrum under the square root of the Fourier spectrum factor) carry
     # no information about determinism or locality: counted, not compared
-    finite = [bool(np.all(np.isfinite(a))) for a in outs]
+    finite = [a is not None and bool(np.all(np.isfinite(a))) for a in outs]
     cache = {}
     for i in range(len(outs)):
         o = callops[i]
         dist["calls"] += 1
+        # a call without position argument on an object that has no positions yet raises — in the model and in the code
+        if ("error" in r[i]) != (outs[i] is None):
+            bad = {"what": f"{gen}: field-level call without position argument: the code " +
+                           ("raised ValueError" if outs[i] is None else "returned a field") + ", the bookkeeping model says " +
+                           (f"error {r[i]['error']}" if "error" in r[i] else "a field at the stored positions"), "call": i, "op": o}
+            break
+        if outs[i] is None:
+            dist["calls_raising_no_pos"] += 1
+            continue
         if not finite[i]:
             dist["nonfinite_outputs"] += 1
         if o["k"] == "srf_call":
-            e = psets[o["pset"]]
+            e = psets[o["at"]]
             dist["calls_at_shifted_pos"] += int(bool(e.get("rel")))
             dist["calls_structured"] += int(e["mesh"] == "structured")
-            # the positions: the model says which set the output belongs to and which set is stored afterwards
+            dist["calls_reusing_stored_pos"] += int(o["pset"] is None)
+            dist["calls_shared_coordinate_arrays"] += int(bool(e.get("shared")))
+            # the positions: the model says which set the output belongs to and which set is stored afterwards — for a call without
+            # position argument the set stored by the last call with one / by set_pos
             dist["stored_pos_checked"] += 1
             sid = r[i]["stored_pos"]
-            if r[i]["out"]["pos"] != o["pos"] or sid not in byid or not stored_pos_ok_result(stored[i], byid[sid], e):
-                bad = {"what": f"{gen}: the positions stored on the field object after a call are not the given ones "
-                               "(bookkeeping model: the given set is stored)", "call": i, "pset": o["pset"],
+            if r[i]["out"]["pos"] != e["id"] or sid not in byid or not stored_pos_ok_result(stored[i], byid[sid], e):
+                bad = {"what": f"{gen}: the positions stored on the field object after a call are not the given ones (for a call without "
+                               "position argument: not the ones stored before) (bookkeeping model: the given set is stored and kept)",
+                       "call": i, "pset": o["pset"], "evaluated_set": o["at"],
                        "mesh_type_now": stored[i][1], "rel_shift": e.get("rel"), "magnitude": e.get("mag")}
                 break
         # against a freshly built object (nugget-free, integer seed): must be identical
@@ -364,7 +456,8 @@ def compare_history(ctx, case, r, dist, dis, distinct):
                                "last restart of the stream, evaluated at the requested positions", "call": i,
                        "recipe": rec, "with_noise": r[i]["out"]["noise"] is not None, "op": o,
                        "max_abs_diff": float(np.max(np.abs(outs[i] - exp))) if exp.shape == outs[i].shape else "shape",
-                       "rel_shift": psets[o["pset"]].get("rel") if o["k"] == "srf_call" else None}
+                       "reuses_stored_pos": o["k"] == "srf_call" and o["pset"] is None,
+                       "rel_shift": psets[o["at"]].get("rel") if o["k"] == "srf_call" else None}
                 break
         for jx in range(i):
             if toks[i][1] != toks[jx][1] or not (finite[i] and finite[jx]):
@@ -416,7 +509,7 @@ def correspondence(ctx):
     res = run_driver(opsl)
     dis, distinct = list(res_k["disagreements"]), set()
     dist = dict(res_k["distribution"])
-    dist.update(calls=0, fresh_compared=0, pairs=0, replay_compared=0, replay_with_noise=0, replay_with_burn=0,
+    dist.update(calls=0, calls_reusing_stored_pos=0, calls_raising_no_pos=0, calls_shared_coordinate_arrays=0, fresh_compared=0, pairs=0, replay_compared=0, replay_with_noise=0, replay_with_burn=0,
                 stored_pos_checked=0, pos_sets=0, nonfinite_outputs=0, calls_at_shifted_pos=0, calls_structured=0, model_changes_nugget_only=0)
     with warnings.catch_warnings():
         warnings.simplefilter("ignore")
@@ -430,14 +523,16 @@ def correspondence(ctx):
             "distinct_nontrivial": res_k["distinct_nontrivial"] + len(distinct) + grid["distinct"],
             "rule": res_k["rule"] + " || " + grid["rule"] + " || histories on real SRF objects (RandMeth, IncomprRandMeth, Fourier): field-level calls with seeds of "
                     "differing object identity (int, fresh big int, np.int64, None, keep) at position sets of one shape that differ by relative "
-                    "shifts 1e-12…1e-2 at magnitudes 1e-3…1e7 (unstructured and structured, equal-valued copies, mesh-type switches), "
+                    "shifts 1e-12…1e-2 at magnitudes 1e-3…1e7 (unstructured and structured, equal-valued copies, mesh-type switches, the same "
+                    "coordinate arrays under both mesh types), field-level calls WITHOUT position argument (srf(), srf(None, mesh_type), "
+                    ".structured() / .unstructured(); on an object without positions: ValueError in model and code), set_pos, "
                     "in-place model changes (nugget on/off/other value alone, everything but the nugget, both; model families "
                     "Gaussian, Stable, Matern, TPLStable, anisotropic+rotated Exponential whose states differ only in var, an optional shape argument, "
-                    "rescale, len_low, anisotropy or angles), "
+                    "rescale, len_low, anisotropy or angles — anisotropy also via a per-axis len_scale list), "
                     "generator seed / mode_no setters, reset_seed, direct generator calls; compared: (a) every output with an integer seed, nugget "
                     "noise included, bit for bit against a freshly built object realising the model's prediction (model state, seed, mode number, "
-                    "number of noise draws since the last restart of the stream, position set); (b) the stored positions / mesh type against the "
-                    "model's stored set; (c) equality pattern of all outputs at one position set against the model's tokens; (d) each nugget-free "
+                    "number of noise draws since the last restart of the stream, position set — for a call without position argument the set the "
+                    "model says is stored); (b) the stored positions / mesh type against the model's stored set; (c) equality pattern of all outputs at one position set against the model's tokens; (d) each nugget-free "
                     "output against a fresh object built from the harness's own tracking",
             "samples": [c[2] for c in cases[:2]] + res_k["samples"][:2], "disagreements": dis[:6], "distribution": dist}
 
@@ -515,6 +610,8 @@ def search(ctx, deep=False):
                              "case": desc})
         ev += search_pos_history(gs, np.random.RandomState(ctx.seed + 211), ctx.scale(90, 600) * (3 if deep else 1), viol)
         ev += search_noise_history(gs, np.random.RandomState(ctx.seed + 311), ctx.scale(90, 600) * (3 if deep else 1), viol)
+        ev += search_stored_pos(gs, np.random.RandomState(ctx.seed + 411), ctx.scale(120, 900) * (3 if deep else 1), viol)
+        ev += search_output_paths(gs, np.random.RandomState(ctx.seed + 511), ctx.scale(45, 400) * (3 if deep else 1), viol)
     seen, out = set(), []
     for v in viol:                      # one representative per key first, so that no class is crowded out
         if v["key"] not in seen:
@@ -527,7 +624,12 @@ def search(ctx, deep=False):
                        "shifts 1e-12…1e-2 at magnitudes 1e-3…1e7 (unstructured / structured / mesh-type switches) vs a fresh object, the stored "
                        "positions and a direct generator evaluation; nugget-noise histories (calls, then an in-place change of nothing / var / nugget / "
                        "anis / angles / len_scale / a change and its restoration / the same seed value again) vs a fresh object with the noise "
-                       "stream replayed"}
+                       "stream replayed; calls WITHOUT position argument (srf(), srf(seed=s), .structured() / .unstructured()) after positions were "
+                       "stored by a call or set_pos and then the model geometry (anis, angles, len_scale scalar / per-axis list), var, the model "
+                       "object, the generator seed / mode_no / period or the stored set / its mesh type (same coordinate arrays) were changed, vs a "
+                       "brand-new object called WITH the positions; every output path of one field (named store, .unstructured, .structured, "
+                       "meshio mesh point_data and cell_data with 1-4 cell blocks of mixed cell types and any `direction`, vtk export arrays of "
+                       "both mesh types) vs the plain unstructured call of a fresh object at the same points"}
 
 
 def expand(pos, mesh, dim):
@@ -678,3 +780,390 @@ def make_gen_srf(gs, gen, model, seed, dim):
     if gen == "IncomprRandMeth":
         return gs.SRF(model, generator="IncomprRandMeth", seed=seed, mode_no=32, mean_velocity=0.5)
     return gs.SRF(model, generator="Fourier", seed=seed, mode_no=[8] * dim, period=[20.0] * dim)
+
+
+# ------------------------------------------------------------------------------------ calls that reuse the stored positions
+STORED_CHANGES = ["none", "anis", "angles", "len_scale", "len_scale-list", "var", "model-object", "model-object-same-values", "gen-seed",
+                  "gen-mode_no", "gen-period", "set_pos", "pos-setter", "mesh-type-same-arrays", "call-elsewhere", "call-seed"]
+
+
+def search_stored_pos(gs, rng, N, viol):
+    """`srf()` without position argument evaluates the STORED positions with the CURRENT model and generator settings: positions are
+    stored (by a call or by set_pos), then one to three things change (model geometry / variance in place, the model object, generator
+    settings, the stored set itself or only its mesh type), then the stored positions are evaluated again.  Reference = a brand-new
+    model object with the final parameter values and a brand-new SRF with the final settings, called WITH the positions."""
+    ev = 0
+    for t in range(N):
+        gen = GENS[t % 3]
+        dim = int(rng.randint(2, 4)) if (gen == "IncomprRandMeth" or rng.rand() < 0.8) else 1
+        cls = "Gaussian" if rng.rand() < 0.5 else "Exponential"
+        par = dict(var=1.5, len_scale=2.0)
+        if dim > 1:
+            par.update(anis=[float(a) for a in rng.choice([0.5, 2.0, 1.0, 0.3], size=dim - 1)],
+                       angles=[float(a) for a in rng.uniform(-1, 1, size=dim * (dim - 1) // 2) * (rng.rand() < 0.7)])
+        st = dict(seed=int(rng.choice([3, 10**9 + 7, 77])), mode_no=[8] * dim if gen == "Fourier" else 32, period=[20.0] * dim)
+
+        def mk(par, st, new_model=True, model=None):
+            m = getattr(gs, cls)(dim=dim, **par) if new_model else model
+            if gen == "RandMeth":
+                return gs.SRF(m, seed=st["seed"], mode_no=st["mode_no"])
+            if gen == "IncomprRandMeth":
+                return gs.SRF(m, generator="IncomprRandMeth", seed=st["seed"], mode_no=st["mode_no"], mean_velocity=0.5)
+            return gs.SRF(m, generator="Fourier", seed=st["seed"], mode_no=list(st["mode_no"]), period=list(st["period"]))
+
+        def rnd_set():
+            k = int(rng.randint(2, 5))
+            arrs = tuple(np.sort(rng.uniform(-8, 8, size=k)) for _ in range(dim))
+            return ["structured" if rng.rand() < 0.35 else "unstructured", arrs]
+        cur = rnd_set()
+        srf = mk(par, st)
+        how = str(rng.choice(["call", "set_pos", "entry"]))
+        if how == "call":
+            srf(cur[1], mesh_type=cur[0])
+        elif how == "set_pos":
+            srf.set_pos(cur[1], cur[0])
+        else:
+            (srf.structured if cur[0] == "structured" else srf.unstructured)(cur[1])
+        trace = [dict(stored_by=how, mesh_type=cur[0])]
+        for rnd in range(int(rng.randint(1, 4))):
+            changes = [str(c) for c in rng.choice(STORED_CHANGES, size=int(rng.randint(1, 3)))]
+            kw = {}
+            for ch in changes:
+                if ch in ("anis", "angles", "len_scale-list") and dim == 1:
+                    ch = "len_scale"
+                if ch == "gen-mode_no":
+                    st["mode_no"] = [6] * dim if gen == "Fourier" else 24
+                    srf.generator.mode_no = st["mode_no"]
+                elif ch == "gen-period":
+                    if gen != "Fourier":
+                        continue
+                    st["period"] = [float(p) for p in rng.choice([16.0, 25.0, 31.0], size=dim)]
+                    srf.generator.period = st["period"]
+                elif ch == "gen-seed":
+                    st["seed"] = int(rng.choice([5, 10**9 + 9, 78]))
+                    srf.generator.seed = st["seed"]
+                elif ch == "call-seed":
+                    st["seed"] = int(rng.choice([6, 10**9 + 21, 79]))
+                    kw = dict(seed=st["seed"])
+                elif ch == "anis":
+                    par["anis"] = [float(a) for a in rng.choice([0.4, 0.8, 1.6, 2.5], size=dim - 1)]
+                    srf.model.anis = par["anis"]
+                elif ch == "angles":
+                    par["angles"] = [float(a) for a in rng.uniform(-1.5, 1.5, size=dim * (dim - 1) // 2)]
+                    srf.model.angles = par["angles"]
+                elif ch == "len_scale":
+                    par["len_scale"] = float(rng.choice([1.0, 3.0, 4.5]))
+                    srf.model.len_scale = par["len_scale"]
+                elif ch == "len_scale-list":
+                    ls = [float(a) for a in rng.choice([1.0, 2.0, 3.0, 5.0], size=dim)]
+                    srf.model.len_scale = ls
+                    par["len_scale"] = ls[0]               # documented meaning of the per-axis list: main length scale and ratios
+                    par["anis"] = [l / ls[0] for l in ls[1:]]
+                elif ch == "var":
+                    par["var"] = float(rng.choice([0.5, 2.5]))
+                    srf.model.var = par["var"]
+                elif ch in ("model-object", "model-object-same-values"):
+                    if ch == "model-object":
+                        par = dict(par, var=float(rng.choice([0.75, 3.0])))
+                        if dim > 1:
+                            par["angles"] = [float(a) for a in rng.uniform(-1.5, 1.5, size=dim * (dim - 1) // 2)]
+                    srf.model = getattr(gs, cls)(dim=dim, **par)
+                elif ch == "set_pos":
+                    cur = rnd_set()
+                    srf.set_pos(cur[1], cur[0])
+                elif ch == "pos-setter":                   # other coordinates of the same mesh type, assigned through the property
+                    cur = [cur[0], rnd_set()[1]]
+                    srf.pos = cur[1]
+                elif ch == "mesh-type-same-arrays":
+                    cur = ["unstructured" if cur[0] == "structured" else "structured", cur[1]]
+                    srf.set_pos(cur[1], cur[0])
+                elif ch == "call-elsewhere":               # a call WITH other positions in between, then the first set again through set_pos
+                    srf(rng.uniform(-5, 5, size=(dim, 3)))
+                    srf.set_pos(cur[1], cur[0])
+            if kw:
+                st["seed"] = kw["seed"]                    # the seed given with the call is the one that counts
+            entry = str(rng.choice(["call", "call", "entry"]))
+            out = np.array(srf(**kw) if entry == "call" else
+                           (srf.structured if cur[0] == "structured" else srf.unstructured)(**kw), copy=True)
+            ref = mk(par, st)(cur[1], mesh_type=cur[0])
+            ev += 1
+            trace.append(dict(changes=changes, reuse_entry=entry, seed_kw=kw.get("seed"), mesh_type=cur[0]))
+            if not (np.all(np.isfinite(ref)) and np.all(np.isfinite(out))):
+                continue
+            if not (out.shape == ref.shape and np.array_equal(out, ref)):
+                what = "+".join(sorted(set(changes)))
+                viol.append({"key": f"stored-pos:{gen}:{what}",
+                             "what": f"a call WITHOUT position argument after [{what}] differs from a brand-new object (final model parameters and "
+                                     f"generator settings) called WITH the stored positions: max abs diff "
+                                     f"{float(np.max(np.abs(out - ref))) if out.shape == ref.shape else 'shape ' + str(out.shape) + ' vs ' + str(ref.shape)}",
+                             "case": dict(gen=gen, dim=dim, model=cls, final_params=par, final_settings=st, trace=trace,
+                                          pos=[np.asarray(a).tolist() for a in cur[1]])})
+                break
+    return ev
+
+
+# ------------------------------------------------------------------------------------ every output path of one field
+NVERT = {"vertex": 1, "line": 2, "triangle": 3, "quad": 4, "tetra": 4, "pyramid": 5, "wedge": 6, "hexahedron": 8}
+STORE_NAMES = ["field", "perm", "k_1", "Conductivity", "field2"]
+OUT_PATHS = ["call-named", "unstructured", "structured", "mesh-points", "mesh-centroids", "vtk-unstructured", "vtk-structured"]
+EPS = float(np.finfo(float).eps)
+
+
+class LayoutProblem(Exception):
+    pass
+
+
+class VtkCapture:
+    """intercepts what gstools hands to the pyevtk writers (nothing is written)"""
+
+    def __enter__(self):
+        import gstools.tools.export as ex
+        self.ex, self.old, self.calls = ex, (ex.pointsToVTK, ex.gridToVTK), []
+
+        def points(filename, x, y, z, *a, **kw):
+            self.calls.append(("points", x, y, z, kw.get("data", a[0] if a else None)))
+
+        def grid(filename, x, y, z, *a, **kw):
+            self.calls.append(("grid", x, y, z, kw.get("pointData", a[1] if len(a) > 1 else None)))
+        ex.pointsToVTK, ex.gridToVTK = points, grid
+        return self
+
+    def __exit__(self, *exc):
+        self.ex.pointsToVTK, self.ex.gridToVTK = self.old
+        return False
+
+
+def random_select(rng, dim, mesh_dim):
+    """which mesh coordinates carry the field coordinates, and a `direction` argument saying so"""
+    if mesh_dim == dim and rng.rand() < 0.5:
+        return list(range(dim)), "all"
+    sel = [int(c) for c in rng.permutation(mesh_dim)[:dim]]
+    if rng.rand() < 0.5:
+        return sel, "".join("xyz"[c] for c in sel)
+    return sel, list(sel)
+
+
+def split_blocks(rng, n, kmax=4):
+    k = int(min(n, rng.randint(1, kmax + 1)))
+    cuts = sorted(rng.choice(np.arange(1, n), size=k - 1, replace=False).tolist()) if k > 1 else []
+    return [b - a for a, b in zip([0] + cuts, cuts + [n])]
+
+
+def point_mesh(rng, P, mesh_dim, select):
+    """meshio mesh whose POINTS are the columns of P (embedded in mesh_dim coordinates, the other coordinates arbitrary); 1..4 cell
+    blocks of mixed types with arbitrary connectivity"""
+    import meshio
+    n = P.shape[1]
+    pts = rng.randn(n, mesh_dim) * 7.0
+    for a, c in enumerate(select):
+        pts[:, c] = P[a]
+    cells = []
+    for _ in range(int(rng.randint(1, 5))):
+        kind = str(rng.choice(list(NVERT)))
+        cells.append((kind, rng.randint(0, n, size=(int(rng.randint(1, 5)), NVERT[kind]))))
+    return meshio.Mesh(pts, cells)
+
+
+def centroid_mesh(rng, n, mesh_dim, centre, spread):
+    """meshio mesh with n cells in 1..4 cell blocks of mixed cell types (a type may occur in several blocks), vertices shared between
+    cells and blocks.  Returns the mesh and, per block, the centroids (block length, mesh_dim) recomputed here from the stored vertex
+    coordinates by plain left-to-right sums."""
+    import meshio
+    nv = int(rng.randint(8, 30))
+    pts = centre[None, :] + rng.uniform(-spread, spread, size=(nv, mesh_dim))
+    cells, cents = [], []
+    for sz in split_blocks(rng, n):
+        kind = str(rng.choice(list(NVERT)))
+        conn = np.array([rng.choice(nv, size=NVERT[kind], replace=False) for _ in range(sz)], dtype=int).reshape(sz, NVERT[kind])
+        cells.append((kind, conn))
+        c = np.empty((sz, mesh_dim))
+        for i, row in enumerate(conn):
+            acc = np.zeros(mesh_dim)
+            for v in row:
+                acc = acc + pts[v]
+            c[i] = acc / len(row)
+        cents.append(c)
+    return meshio.Mesh(pts, cells), cents
+
+
+def position_tolerance(srf, P):
+    """bound on the change of the generated values under a perturbation of a few ulp of the positions (centroids are means whose
+    rounding depends on the order of summation; rotated / anisotropic models go through a BLAS product whose rounding depends on the
+    batch shape) plus the rounding of the evaluation itself: sum_j amp_j (|k_j|.|x| + 8) * 32 eps"""
+    g, m = srf.generator, srf.model
+    try:
+        z = np.abs(np.asarray(g._z_1, dtype=float)) + np.abs(np.asarray(g._z_2, dtype=float))
+        if type(g).__name__ == "Fourier":
+            k, amp = np.atleast_2d(np.asarray(g.modes, dtype=float)), np.abs(np.asarray(g._spectrum_factor, dtype=float)) * z
+        else:
+            k = np.atleast_2d(np.asarray(g._cov_sample, dtype=float))
+            amp = np.sqrt(m.var / k.shape[1]) * z * 2.0          # incompressible projector: entries within [-1, 2]
+        iso = np.abs(m.isometrize(P)) + np.abs(np.asarray(m.isometrize(np.abs(P))))
+        return float(np.max(amp @ (np.abs(k).T @ iso + 8.0))) * 32 * EPS
+    except Exception:          # noqa: BLE001 — private attributes renamed: a fixed tight tolerance
+        return 1e-10
+
+
+def to_rows(a, n, vd, what):
+    """values of n points delivered as (n,) [scalar] or (n, components) [vector, mesh layout] -> (vd, n) resp. (n,)"""
+    a = np.asarray(a, dtype=float)
+    if vd == 1:
+        if a.shape != (n,):
+            raise LayoutProblem(f"{what} has shape {a.shape}, expected ({n},)")
+        return a
+    if a.shape != (n, vd):
+        raise LayoutProblem(f"{what} has shape {a.shape}, expected ({n}, {vd}) = (points, components)")
+    return np.ascontiguousarray(a.T)
+
+
+def eval_path(gs, mk, path, rng, dim, vd, seed_kw):
+    """evaluate a field of a new object `mk()` through output path `path` at points chosen here.  Returns
+    (points (dim, n) in the order of the delivered values, values in the layout of the plain unstructured call, positions_exact)."""
+    srf = mk()
+    nm = str(rng.choice(STORE_NAMES))
+    n = int(rng.randint(3, 12))
+    P = rng.uniform(-9, 9, size=(dim, n))
+    shape = (n,) if vd == 1 else (vd, n)
+    if path == "call-named":
+        ret = np.asarray(srf(P, store=nm, **seed_kw))
+        if nm not in srf.field_names:
+            raise LayoutProblem(f"field stored as {nm!r} is not listed in field_names {srf.field_names}")
+        out = srf[nm]
+        if not (np.array_equal(out, getattr(srf, nm)) and np.array_equal(out, ret)):
+            raise LayoutProblem(f"srf[{nm!r}], srf.{nm} and the returned array differ")
+        return P, out, True
+    if path == "unstructured":
+        return P, srf.unstructured(P, **seed_kw), True
+    if path in ("structured", "vtk-structured"):
+        axes = [np.sort(rng.uniform(-9, 9, size=int(rng.randint(1, 4)))) for _ in range(dim)]
+        ks = [len(a) for a in axes]
+        if path == "structured":
+            ret = srf.structured(axes, store=nm, **seed_kw) if rng.rand() < 0.5 else srf(axes, mesh_type="structured", store=nm, **seed_kw)
+            want = tuple(ks) if vd == 1 else (vd,) + tuple(ks)
+            if np.shape(ret) != want or not np.array_equal(ret, srf[nm]):
+                raise LayoutProblem(f"structured call returned shape {np.shape(ret)} (expected {want}) or stored something else under {nm!r}")
+            G = np.array(np.meshgrid(*axes, indexing="ij")).reshape(dim, -1)          # C order
+            return G, np.reshape(ret, (-1,) if vd == 1 else (vd, -1)), True
+        srf(axes, mesh_type="structured", store=nm, **seed_kw)
+        with VtkCapture() as cap:
+            srf.vtk_export("/nonexistent/c11", field_select=nm, fieldname="w")
+        if len(cap.calls) != 1 or cap.calls[0][0] != "grid" or not isinstance(cap.calls[0][4], dict):
+            raise LayoutProblem(f"vtk export of a structured field: writer calls {[c[0] for c in cap.calls]}")
+        _, x, y, z, data = cap.calls[0]
+        for a, got in enumerate((x, y, z)):
+            wantc = axes[a] if a < dim else np.array([0])
+            if not np.array_equal(np.asarray(got, dtype=float), wantc):
+                raise LayoutProblem(f"vtk export: axis {a} of the exported rectilinear grid is not the position axis")
+        full = ks + [1] * (3 - dim)
+        idx = np.array(np.unravel_index(np.arange(int(np.prod(full))), full, order="F"))[:dim]     # VTK: first axis fastest
+        G = np.array([axes[d][idx[d]] for d in range(dim)])
+        names = ["w"] if vd == 1 else ["w" + suf for suf in ("_X", "_Y", "_Z")[:vd]]
+        if sorted(data) != sorted(names):
+            raise LayoutProblem(f"vtk export: arrays {sorted(data)} instead of {names}")
+        vals = [np.asarray(data[k], dtype=float) for k in names]
+        if any(v.shape != (G.shape[1],) for v in vals):
+            raise LayoutProblem(f"vtk export: array shapes {[v.shape for v in vals]}, expected ({G.shape[1]},)")
+        return G, vals[0] if vd == 1 else np.array(vals), True
+    if path == "vtk-unstructured":
+        srf(P, store=nm, **seed_kw)
+        with VtkCapture() as cap:
+            srf.vtk_export("/nonexistent/c11", field_select=nm, fieldname="w")
+        if len(cap.calls) != 1 or cap.calls[0][0] != "points" or not isinstance(cap.calls[0][4], dict):
+            raise LayoutProblem(f"vtk export of an unstructured field: writer calls {[c[0] for c in cap.calls]}")
+        _, x, y, z, data = cap.calls[0]
+        for a, got in enumerate((x, y, z)):
+            if not np.array_equal(np.asarray(got, dtype=float), P[a] if a < dim else np.zeros(n)):
+                raise LayoutProblem(f"vtk export: coordinate {a} of the exported points is not the position row")
+        names = ["w"] if vd == 1 else ["w" + suf for suf in ("_X", "_Y", "_Z")[:vd]]
+        if sorted(data) != sorted(names):
+            raise LayoutProblem(f"vtk export: arrays {sorted(data)} instead of {names}")
+        vals = [np.asarray(data[k], dtype=float) for k in names]
+        return P, vals[0] if vd == 1 else np.array(vals), True
+    mesh_dim = int(rng.randint(dim, 4))
+    select, direction = random_select(rng, dim, mesh_dim)
+    kw = dict(seed_kw)
+    nm2 = None
+    if rng.rand() < 0.3:
+        nm2 = str(rng.choice(STORE_NAMES))
+        kw["store"] = nm2
+    if path == "mesh-points":
+        mesh = point_mesh(rng, P, mesh_dim, select)
+        ret = srf.mesh(mesh, points="points", direction=direction, name=nm, **kw)
+        if nm not in mesh.point_data:
+            raise LayoutProblem(f"srf.mesh(points='points', name={nm!r}) wrote point_data keys {sorted(mesh.point_data)}")
+        out = to_rows(mesh.point_data[nm], n, vd, f"mesh.point_data[{nm!r}]")
+        exact = True
+    elif path == "mesh-centroids":
+        mesh, cents = centroid_mesh(rng, n, mesh_dim, rng.uniform(-6, 6, size=mesh_dim), float(rng.choice([0.5, 3.0])))
+        P = np.vstack(cents).T[select]
+        ret = srf.mesh(mesh, points="centroids", direction=direction, name=nm, **kw)
+        if nm not in mesh.cell_data:
+            raise LayoutProblem(f"srf.mesh(points='centroids', name={nm!r}) wrote cell_data keys {sorted(mesh.cell_data)}")
+        lst = mesh.cell_data[nm]
+        if not isinstance(lst, (list, tuple)) or len(lst) != len(cents):
+            raise LayoutProblem(f"mesh.cell_data[{nm!r}] is not a list with one array per cell block ({len(cents)})")
+        out = np.concatenate([to_rows(a, len(c), vd, f"mesh.cell_data[{nm!r}][{b}] (block type {mesh.cells[b].type})")
+                              for b, (a, c) in enumerate(zip(lst, cents))], axis=-1)
+        exact = False
+    else:
+        raise ValueError(path)
+    if np.shape(ret) != shape:
+        raise LayoutProblem(f"srf.mesh returned an array of shape {np.shape(ret)}, expected {shape}")
+    if nm2 is not None and not (nm2 in srf.field_names and np.array_equal(srf[nm2], ret)):
+        raise LayoutProblem(f"srf.mesh(..., store={nm2!r}) did not store the returned field under that name")
+    return P, out, exact, np.asarray(ret, dtype=float)          # the returned array is compared with the reference as well
+
+
+def search_output_paths(gs, rng, N, viol):
+    """Every output path of one field must carry the values of the plain unstructured call at the same points: named store,
+    .unstructured, .structured / mesh_type="structured" (C-order grid), meshio mesh point_data and cell_data (1..4 cell blocks of mixed
+    cell types, any `direction`, custom names, `store=` forwarded), the arrays handed to the vtk writers for both mesh types (the
+    structured export is in Fortran order).  Oracle: a NEW object with the same model, seed and settings, called at the points in the
+    order in which the path delivers them; bit for bit where the positions are bit-identical and the model is isotropic, otherwise
+    within the rounding bound of `position_tolerance`."""
+    ev = 0
+    for t in range(N):
+        gen = GENS[t % 3]
+        dim = int(rng.randint(2, 4)) if gen == "IncomprRandMeth" else int(rng.randint(1, 4))
+        vd = vec_dim(gen, dim)
+        seed = int(rng.choice([3, 10**9 + 7, 77]))
+        kw = {}
+        if dim > 1 and gen != "IncomprRandMeth" and rng.rand() < 0.5:
+            kw = dict(anis=[float(a) for a in rng.choice([0.5, 2.0], size=dim - 1)],
+                      angles=[float(a) for a in rng.uniform(-1, 1, size=dim * (dim - 1) // 2)])
+        cls = gs.Gaussian if rng.rand() < 0.5 else gs.Exponential
+        model = cls(dim=dim, var=1.5, len_scale=2.0, **kw)
+        # the seed either sits in the object or arrives with the call (forwarded by .mesh / .structured / .unstructured)
+        via_call = rng.rand() < 0.4
+        mk = lambda: make_gen_srf(gs, gen, model, 12345 if via_call else seed, dim)
+        seed_kw = dict(seed=seed) if via_call else {}
+        for path in OUT_PATHS:
+            if path.startswith("vtk") and rng.rand() < 0.5:
+                continue
+            ev += 1
+            desc = dict(gen=gen, dim=dim, seed=seed, seed_given_with_call=via_call, model=repr(model), path=path)
+            try:
+                P, out, exact, *more = eval_path(gs, mk, path, rng, dim, vd, seed_kw)
+            except LayoutProblem as ex:
+                viol.append({"key": f"output-path:{path}:{gen}:layout", "what": f"output path {path}: {ex}", "case": desc})
+                continue
+            refsrf = make_gen_srf(gs, gen, model, seed, dim)
+            ref = np.asarray(refsrf(P), dtype=float)
+            out = np.asarray(out, dtype=float)
+            desc.update(points=P.tolist())
+            if out.shape != ref.shape:
+                viol.append({"key": f"output-path:{path}:{gen}:layout", "what": f"output path {path} delivers shape {out.shape}, the plain call {ref.shape}",
+                             "case": desc})
+                continue
+            if not (np.all(np.isfinite(ref)) and np.all(np.isfinite(out))):
+                continue
+            tol = 0.0 if (exact and not kw) else position_tolerance(refsrf, P)
+            for label, arr in [(path, out)] + [(path + ":returned-array", a) for a in more]:
+                err = np.abs(arr - ref) if arr.shape == ref.shape else np.full(ref.shape, np.inf)
+                if not np.all(err <= tol):
+                    bad = np.argwhere(~(err <= tol))
+                    viol.append({"key": f"output-path:{label}:{gen}",
+                                 "what": f"output path {label} does not carry the values of the plain unstructured call at the same points: "
+                                         f"max abs diff {float(err.max()):.3e} (tolerance {tol:.1e}), first differing entry {bad[0].tolist()} of shape {arr.shape}",
+                                 "case": desc})
+    return ev
